@@ -1,4 +1,5 @@
 import SaModel.Lemmas.C01Push
+import SaModel.Build.Obs
 /-
 C01 "hidden rows" — vocabulary of the refinement that speaks about OBSERVABLE rows only.
 
@@ -7,7 +8,7 @@ family that reading is not stable: a dictionary with NON-nullable keys that rece
 is null) stores the placeholder key 0, which designates nothing while the dictionary is empty and the FIRST real value
 later (`Props.C01.dict_placeholder_unstable`).  The property says such slots "may hold anything".
 
-`decH b : List (Option LVal)` is `dec b` with every row that is NOT DETERMINED by the state replaced by `none`:
+`decH b : List (Option LVal)` (MODEL file Build/Obs.lean, executable) is `dec b` with every row that is NOT DETERMINED by the state replaced by `none`:
   * a dictionary row whose key designates no value (yet) is `none`;
   * a struct / list / fixed-size list / map / union row is `none` when a child row it READS is `none` — a row whose own
     validity bit is clear reads no child and is the determined value `null`.
@@ -25,76 +26,9 @@ key builder of a dictionary is not itself a dictionary) — `build_builder` only
 namespace SaModel.Build
 open SaModel SaModel.Spec
 
-/-- observable rows: `none` = not determined by the state (only possible below a null ancestor) -/
-abbrev H := List (Option LVal)
-
 /-- same length, determined rows unchanged -/
 def Refines (new old : H) : Prop :=
   new.length = old.length ∧ ∀ (i : Nat) (x : LVal), old[i]? = some (some x) → new[i]? = some (some x)
-
-/-- rows whose validity bit is clear are (determined) nulls, whatever the slot holds -/
-def maskNullH (v : Validity) (xs : H) : H :=
-  match v with
-  | none => xs
-  | some bits => List.zipWith (fun b x => if b then x else some LVal.null) bits xs
-
-/-- all rows determined? -/
-def allSome {α} : List (Option α) → Option (List α)
-  | [] => some []
-  | none :: _ => none
-  | some x :: r => (allSome r).map (x :: ·)
-
-/-! pure row functions of the container families (children as lists of observable rows) -/
-
-def listRowsH (offs : List Int) (elems : H) : H :=
-  (pairs offs).map fun se => (allSome (sliceL elems se.1 se.2)).map fun xs => LVal.list (LVals.ofList xs)
-
-def fslRowsH (n len : Nat) (elems : H) : H :=
-  (List.range len).map fun i => (allSome ((elems.drop (i * n)).take n)).map fun xs => LVal.list (LVals.ofList xs)
-
-def mapRowH (k w : Option (List LVal)) : Option LVal :=
-  match k, w with
-  | some k, some w => some (.map (LEntries.ofList (k.zip w)))
-  | _, _ => none
-
-def mapRowsH (offs : List Int) (ks vs : H) : H :=
-  (pairs offs).map fun se => mapRowH (allSome (sliceL ks se.1 se.2)) (allSome (sliceL vs se.1 se.2))
-
-/-- row `i` of a struct with the given observable columns -/
-def rowAtH (cols : List (String × H)) (i : Nat) : Option LVal :=
-  (allSome (cols.map fun c => (c.2.getD i (some .null)).map fun x => (c.1, x))).map fun fl => LVal.struct (LFields.ofList fl)
-
-def structRowsH (len : Nat) (cols : List (String × H)) : H := (List.range len).map (rowAtH cols)
-
-/-- a dictionary row: a key that designates no value is NOT determined -/
-def dictRowH (vs : H) (k : Option LVal) : Option LVal :=
-  match k with
-  | some (.int j) => vs.getD j.toNat none
-  | some _ => some .null
-  | none => none
-
-def unionRowH (cols : List (String × H)) (t o : Int) : Option LVal :=
-  ((cols.getD t.toNat ("", [])).2.getD o.toNat (some .null)).map (LVal.union t)
-
-mutual
-/-- the observable rows of a builder state -/
-def decH : B → H
-  | .null p len => (dec (.null p len)).map some
-  | .unknownVariant p => (dec (.unknownVariant p)).map some
-  | .leaf p k v vals => (dec (.leaf p k v vals)).map some
-  | .bytes p ty v offs data => (dec (.bytes p ty v offs data)).map some
-  | .bytesView p ty v views buf => (dec (.bytesView p ty v views buf)).map some
-  | .fixedSizeBinary p n len v buf c => (dec (.fixedSizeBinary p n len v buf c)).map some
-  | .list _ _ _ v offs el => maskNullH v (listRowsH offs (decH el))
-  | .fixedSizeList _ _ n len v _ el => maskNullH v (fslRowsH n len (decH el))
-  | .map _ _ v offs ks vs => maskNullH v (mapRowsH offs (decH ks) (decH vs))
-  | .struct _ len v fs _ _ _ => maskNullH v (structRowsH len (decHCols fs))
-  | .dictionary _ idx vals _ => (decH idx).map (dictRowH (decH vals))
-  | .union _ fs types offs _ => List.zipWith (unionRowH (decHCols fs)) types offs
-def decHCols : BL → List (String × H)
-  | .nil => []
-  | .cons b m r => (m.name, decH b) :: decHCols r
-end
 
 /-- the key clause the dictionary builders really maintain: in range, or the placeholder `0` of a non-nullable key
 builder (pushed by `serialize_default` below a null ancestor) -/
